@@ -90,9 +90,27 @@ Inductive prog :=
 | PRaiseAttr.                        (* raise AttributeError(name) *)
 
 (* ------------------------------------------------------------------ semantics *)
+(* ---- the proxy layer (LocalProxy / _ProxyLookup), generated pieces *)
+Inductive exn := EAttributeError | ELookupError | ERuntimeError | EOther.
+Inductive otest := TIsNone | TFalsy.            (* `obj is None` / `not obj` *)
+(* the _get_current_object closure LocalProxy.__init__ installs for each kind of `local` *)
+Inductive gco_prog :=
+| GcoLocal (catch : exn)       (* try: return get_name(local)  except <catch>: raise RuntimeError(unbound_message) *)
+| GcoStack (unbound : otest)   (* obj = local.top; if <unbound obj>: raise RuntimeError(unbound_message); return get_name(obj) *)
+| GcoVar (catch : exn)         (* try: obj = local.get()  except <catch>: raise RuntimeError(unbound_message); return get_name(obj) *)
+| GcoCall.                     (* return get_name(local()) *)
+(* what a _ProxyLookup fallback returns for an unbound proxy *)
+Inductive fbkind := FbNone | FbFalse | FbTrue | FbUnboundRepr | FbEmptyList | FbTypeDoc | FbWrapped | FbTypeSelf | FbOther.
+Record pentry := mkpentry { pe_id : nat; pe_has_f : bool; pe_fallback : fbkind; pe_is_attr : bool; pe_iop : bool }.
+(* callbacks run by ClosingIterator.close(), in order *)
+Inductive close_cb := CbIterableClose | CbGiven.
+
 Inductive out :=
 | ONone | OVal (v : N) | OItems (l : list (N * N)) | OObj (l : list N) | OAttrError
 | ORuntimeError | OBool (b : bool) | ORepr (x : option N) | OCtx (c : nat) | OProxy (i : nat)
+| OFwd (e : nat) (x : N)              (* special method number e forwarded to object x *)
+| OFallback (k : fbkind)              (* the fallback of an unbound proxy *)
+| OMsg (m : option N)                 (* text of the RuntimeError: None = the default message *)
 | OInvalid                            (* step addressed to a context / proxy that does not exist *)
 | OStuck.                             (* the program went wrong (KeyError, IndexError, type error, unbound local) *)
 
